@@ -948,3 +948,50 @@ func NewBigPair(g *gitx.Git, dir, format string) (*BigPair, error) {
 	}
 	return bp, nil
 }
+
+// DeltaInsertRuns returns the lengths of the maximal runs of consecutive insert instructions of a
+// delta (a literal longer than 127 bytes is encoded as several inserts). Parsing stops at the
+// reserved opcode 0.
+func DeltaInsertRuns(d []byte) (runs []int, sawOpcodeZero bool) {
+	pos := 0
+	for k := 0; k < 2; k++ {
+		for {
+			if pos >= len(d) {
+				return nil, false
+			}
+			c := d[pos]
+			pos++
+			if c&0x80 == 0 {
+				break
+			}
+		}
+	}
+	cur := 0
+	flush := func() {
+		if cur > 0 {
+			runs = append(runs, cur)
+			cur = 0
+		}
+	}
+	for pos < len(d) {
+		cmd := d[pos]
+		pos++
+		switch {
+		case cmd&0x80 != 0:
+			flush()
+			for k := uint(0); k < 7; k++ {
+				if cmd&(1<<k) != 0 {
+					pos++
+				}
+			}
+		case cmd != 0:
+			cur += int(cmd)
+			pos += int(cmd)
+		default:
+			flush()
+			return runs, true
+		}
+	}
+	flush()
+	return runs, false
+}
